@@ -1484,8 +1484,12 @@ def c19(run):
                 r = []
                 try:
                     for i, c in enumerate(h):
-                        o = im.call(c)
+                        o = im.gcall(c)
                         r.append((o, im.state(), {}))
+                        if o == "exn:HANG":
+                            run.violation({"kind": "does-not-return", "procedure": name}, "%s procedure: call [%s] does not return after [%s]" % (
+                                name, token_line(c), " ; ".join(token_line(x) for x in h[:i])), {"history": seq.strip(h[:i + 1]), "line": history_line("states", h[:i + 1])})
+                            break
                         if name == "steps" and i >= len(prefix) and o.startswith("exn:"):
                             break
                     return r, [c.get("_meta") for c in h]
